@@ -43,8 +43,9 @@ Stacks(d) == {<<l>> : l \in AllLocs(0)}
              \cup {<<L1(x), L1(y), L1(z)>> : x, y, z \in Base}
              \cup (IF Tier = "thorough" THEN {<<l, L1("u"), m>> : l \in Doubles(0), m \in Doubles(0)} ELSE {})
 \* second sample: shares the first sample's root-most location in a position where the rule applies differently
-Seconds(st) == IF Tier = "thorough" THEN {<<>>, <<st[Len(st)]>>, <<st[Len(st)], L1("u")>>, <<L1("a"), st[Len(st)], L1("u")>>}
-               ELSE {<<>>, <<st[Len(st)], L1("u")>>, <<L1("a"), st[Len(st)], L1("u")>>}
+Seconds(st) == IF Tier = "thorough" THEN {<<>>, <<st[Len(st)]>>, <<st[Len(st)], L1("u")>>, <<L1("a"), st[Len(st)], L1("u")>>, <<L1("u"), L1("a")>>, <<L1("a")>>, <<L1("u"), L1("b"), L1("a")>>}
+               ELSE {<<>>, <<st[Len(st)], L1("u")>>, <<L1("a"), st[Len(st)], L1("u")>>,
+                     <<L1("u"), L1("a")>>, <<L1("a")>>}      \* a later sample whose ROOT matches: the first-user-frame guard is per sample
 
 Exprs(d) == { [drop |-> dr, keep |-> kp] : dr \in SUBSET {"a", "b", "ab"}, kp \in (IF Tier = "thorough" THEN {{}, {"a"}, {"b"}} ELSE {{}, {"a"}}) }
 PruneCases(d) == UNION { { [op |-> "prune", samples |-> << Smp(st, <<1, 2>>, <<SLab("k", <<"v">>)>>, <<>>), Smp(sd, <<3, 4>>, <<>>, <<>>) >>,
